@@ -18,7 +18,7 @@ use crate::{
         InFlightGuard, ListingMetaPolicy, SidecarMeta, SidecarStore, logical_last_modified,
         new_commit_timestamp_ms, new_generation,
     },
-    validate_ranges,
+    clamp_ranges, validate_ranges,
 };
 
 const DEFAULT_CHUNK_SIZE: u64 = 256 * 1024;
@@ -743,6 +743,7 @@ impl<T: ObjectStore> ObjectStore for EncryptedStore<T> {
         'retry: loop {
             let meta = self.inner.get_meta(location).await?;
             self.verify_metadata(location, &meta)?;
+            let ranges = &clamp_ranges(ranges, meta.size);
             validate_ranges("EncryptedStore", ranges, meta.size)?;
 
             let chunk_size = self.read_chunk_size(&meta);
